@@ -84,6 +84,9 @@ rule("R-ITER", structure.r_iter, 12,
 rule("R-SIG", structure.r_sig, 35,
      "borrow-shaped signatures: exclusive handles only from &mut self; returned lifetimes are the receiver's borrow, not an impl-level lifetime; exclusive handles/iterators are not Clone")
 
+rule("R-HANDLELIFE", structure.r_handlelife, 4,
+     "no public operation returns an iterator whose destructor relocates slots while its items destroy their element in place through a stored slot address "
+     "(an Iterator's items cannot borrow from the iterator, so such an item can outlive it)")
 rule("R-NOLEAK", structure.r_noleak, 2,
      "drop suppression (ManuallyDrop::new, mem::forget, MaybeUninit::new, ManuallyDrop/MaybeUninit fields) of a value that owns storage occurs only in the "
      "raw-parts decomposition, where the storage is handed to the caller")
@@ -134,7 +137,7 @@ PROPERTIES = {
             "not_decided": "value-level equality of elements (the analysis tracks slots and byte ranges, not contents); user backends violating the Mem contract"},
     "C02": {"rules": ["R-BOUNDS", "R-LENLOWER", "R-ITER", "R-FORMULA", "R-NONINTERFERENCE", "R-UNITS", "R-ARITH", "R-BOUNDLOOP", "R-OVERLAP"],
             "not_decided": "equality of yielded values"},
-    "C03": {"rules": ["R-FORGET", "R-PROVENANCE", "R-ORDER", "R-NONINTERFERENCE", "R-FORMULA", "R-LENLOWER", "R-NOLEAK", "R-ITER"],
+    "C03": {"rules": ["R-FORGET", "R-PROVENANCE", "R-ORDER", "R-NONINTERFERENCE", "R-FORMULA", "R-LENLOWER", "R-NOLEAK", "R-ITER", "R-HANDLELIFE"],
             "not_decided": "a global count of live values over histories (ownership discipline is decided, not identity accounting)"},
     "C04": {"rules": ["R-TYPEGUARD", "R-PROVENANCE", "R-ORDER", "R-FORGET"], "not_decided": "which downcast succeeds at run time; decided: every unchecked reinterpretation sits behind the right equality test"},
     "C05": {"rules": ["R-ORDER", "R-BOUNDS", "R-UNITS", "R-FORMULA", "R-BOUNDLOOP", "R-NONINTERFERENCE", "R-STACKCAP", "R-OVERLAP"],
